@@ -41,7 +41,7 @@ __CPROVER_ensures(/* like std::vector::insert: the result designates the inserte
     jobs=[Job('insert1', 'h_insert1', enforce=['insert1'], replace=['xv_insert_n', 'xv_distance'], reach='all', timeout=120, min_obligations=3)],
     mutants=[Mutant('stale_iterator_when_full', XV, r'if \(m_allocation > m_size\)\s*\{\s*insert\(thePosition, 1, theData\);', 'if (m_allocation >= m_size)\n        {\n            insert(thePosition, 1, theData);', expect='current storage'),
              Mutant('distance_from_end', XV, r'return begin\(\) \+ theDistance;', 'return begin() + theDistance + 1;', expect='current storage')],
-    mechanisms=['XalanVector growth and iterator validity'],
+    mechanisms=['XalanVector growth and iterator validity', 'vector growth, insert and erase with element shifting'],
     assumptions=['insert(pos, count, value) works in place iff size + count <= capacity and otherwise moves the elements to new storage (read from XalanVector.hpp 378-470; that function is not under contract)',
                  'storage is modelled by identity (buffer id, offset); element values are not modelled'],
 )
